@@ -1,9 +1,25 @@
-"""Kani back end (filled in below): harness groups appended to the real files
-in a scratch copy of /repo's working tree."""
+"""Kani back end. Every run copies /repo's working tree (without target/ and .git) to a scratch
+directory, appends `#[cfg(kani)] mod verif_kani { use super::*; … }` from /verif/kani/<x>.rs to the
+END of the corresponding real source files (the real text above is untouched; the harnesses see
+private fields), runs `cargo kani` on the harnesses and removes the scratch copy.
+
+Three kinds of harness, always named as such in the evidence:
+  complete   loop-free (or fully unwound with unwinding assertions on) over full-domain symbolic inputs
+  inductive  one real operation from an arbitrary state satisfying the representation invariant;
+             history-unbounded, only the capacity is enumerated
+  bounded    a bounded stand-in (symbolic history of stated length); never counted as proved
+"""
 import json
 import os
+import re
+import shutil
+import subprocess
+import tempfile
+import time
 
 ROOT = os.path.dirname(os.path.dirname(os.path.abspath(__file__)))
+REPO = os.environ.get("VK_REPO", "/repo")
+CACHE = os.environ.get("VK_KANI_TARGET", os.path.join(ROOT, ".cache", "kani-target"))
 
 
 def _groups():
@@ -16,9 +32,21 @@ def _groups():
 def groups_for(prop, tier):
     out = []
     for g in _groups():
-        if prop in g["props"] and (tier == "thorough" or g.get("tier", "quick") == "quick"):
-            out.append(g)
+        if prop in g["props"]:
+            hs = [h for h in g["harnesses"] if prop in h.get("props", g["props"])
+                  and (tier == "thorough" or h.get("tier", "quick") == "quick")]
+            if hs:
+                g2 = dict(g)
+                g2["harnesses"] = hs
+                out.append(g2)
     return out
+
+
+def all_props():
+    s = set()
+    for g in _groups():
+        s |= set(g["props"])
+    return s
 
 
 def level_assumptions(prop):
@@ -29,9 +57,192 @@ def level_assumptions(prop):
     return []
 
 
-def all_props():
-    return set().union(*[set(g["props"]) for g in _groups()]) if _groups() else set()
+class KFailure:
+    """Same interface as check.Failure."""
+
+    def __init__(self, harness, desc, props, rendered, kind):
+        self.unit, self.fn, self.kind, self.label = "kani", harness, kind, None
+        self.clause, self.props, self.rendered, self.line = desc, props, rendered, 0
+        self.backend = "kani+cbmc"
+        self.input = None
+        self._desc = desc
+
+    @property
+    def oid(self):
+        d = re.sub(r"[^A-Za-z0-9]+", "-", self._desc)[:60].strip("-")
+        return "kani::%s::%s" % (self.fn, self.kind)
+
+
+def make_scratch(files):
+    """Copy the workspace and append the harness modules. Returns the scratch dir."""
+    d = tempfile.mkdtemp(prefix="vk-kani-")
+    ws = os.path.join(d, "ws")
+    shutil.copytree(REPO, ws, ignore=shutil.ignore_patterns("target", ".git"))
+    for rel, harness_file in files.items():
+        p = os.path.join(ws, rel)
+        text = open(p).read()
+        text += "\n\n// ---- appended by /verif/vk/kani.py from %s ----\n" % harness_file
+        text += open(os.path.join(ROOT, "kani", harness_file)).read()
+        open(p, "w").write(text)
+    cfg = os.path.join(ws, ".cargo")
+    os.makedirs(cfg, exist_ok=True)
+    with open(os.path.join(cfg, "config.toml"), "a") as fh:
+        fh.write("\n[net]\noffline = true\n")
+    return d
+
+
+def parse_output(out, names):
+    """Per harness: status, checks, failed checks, failing descriptions, time.
+    Handles both the sequential format ("Checking harness X...") and the -j format
+    ("Thread k: Checking harness X..." / "Thread k: <result block>")."""
+    res = {}
+    cur_by_thread = {}
+    blocks = {}     # name -> text
+    cur = None
+    for ln in out.split("\n"):
+        m = re.match(r"^(?:Thread (\d+): )?Checking harness (\S+?)\.\.\.", ln)
+        if m:
+            th = m.group(1) or "0"
+            name = m.group(2).split("::")[-1]
+            cur_by_thread[th] = name
+            blocks.setdefault(name, "")
+            cur = name
+            continue
+        m = re.match(r"^Thread (\d+): ?(.*)$", ln)
+        if m:
+            cur = cur_by_thread.get(m.group(1))
+            ln = m.group(2)
+        if cur is not None:
+            blocks[cur] += ln + "\n"
+    for name, part in blocks.items():
+        r = {"full": name, "status": "UNKNOWN", "checks": 0, "failed": 0, "descs": [], "seconds": 0.0, "text": part[-6000:]}
+        mm = re.search(r"\*\* (\d+) of (\d+) failed", part)
+        if mm:
+            r["failed"], r["checks"] = int(mm.group(1)), int(mm.group(2))
+        if "VERIFICATION:- SUCCESSFUL" in part:
+            r["status"] = "SUCCESSFUL"
+        elif "VERIFICATION:- FAILED" in part:
+            r["status"] = "FAILED"
+        mm = re.search(r"Verification Time: ([0-9.]+)s", part)
+        if mm:
+            r["seconds"] = float(mm.group(1))
+        for fm in re.finditer(r"Failed Checks: (.*)\n(?:\s*File: \"([^\"]*)\", line (\d+), in (\S+))?", part):
+            r["descs"].append({"desc": fm.group(1).strip(), "file": fm.group(2), "line": fm.group(3), "fn": fm.group(4)})
+        if re.search(r"CBMC timed out|timed out after|[Tt]imeout", part) and r["status"] in ("UNKNOWN", "FAILED") and not r["descs"]:
+            r["status"] = "TIMEOUT"
+        if re.search(r"out of memory|std::bad_alloc|SIGKILL|Killed", part) and r["status"] == "UNKNOWN":
+            r["status"] = "OOM"
+        res[name] = r
+    return res
+
+
+def concrete_replay(ws, g, h, env, log, prop):
+    """Kani's counterexample replayed natively against the real code: the harness is re-run with
+    --concrete-playback=inplace (adds a #[test] with the concrete values of every kani::any()) and the
+    generated test is executed with `cargo kani playback` in the scratch copy."""
+    log("[%s]   kani: replaying the counterexample of %s against the real code …" % (prop, h["name"]))
+    cmd = ["cargo", "kani", "-p", "nexosim", "-Z", "function-contracts", "-Z", "stubbing", "-Z", "unstable-options",
+           "-Z", "concrete-playback", "--concrete-playback=inplace", "--target-dir", CACHE,
+           "--harness", h["name"], "--output-format", "terse"]
+    p = subprocess.run(cmd, cwd=ws, env=env, capture_output=True, text=True, timeout=h.get("timeout_s", 600) * 2)
+    src = open(os.path.join(ws, g["file"])).read()
+    m = re.search(r"(    /// Test generated for harness.*?kani::concrete_playback_run\(concrete_vals, \w+\);\n\s*\})", src, re.S)
+    if not m:
+        return {"ok": False, "text": "Kani produced no concrete playback test\n" + (p.stdout + p.stderr)[-1500:]}
+    test = m.group(1)
+    tn = re.search(r"fn (kani_concrete_playback_\w+)", test).group(1)
+    env2 = dict(env, CARGO_TARGET_DIR=CACHE)
+    p2 = subprocess.run(["cargo", "kani", "playback", "-Z", "concrete-playback", "-p", "nexosim", "--", tn],
+                        cwd=ws, env=env2, capture_output=True, text=True, timeout=1200)
+    out = p2.stdout + p2.stderr
+    failed = "test result: FAILED" in out
+    keep = [ln for ln in out.split("\n") if re.search(r"panicked at|assertion|test result|^test |failures:", ln)]
+    return {"ok": failed, "test": test, "text": "generated test (concrete values of every kani::any()):\n" + test +
+            "\n\nnative run of that test against the real code (cargo kani playback):\n" + "\n".join(keep[-20:])}
 
 
 def run_groups(prop, groups, tier, log, cache=None):
-    return []
+    cache = cache if cache is not None else {}
+    files = {}
+    harnesses = []
+    for g in groups:
+        files[g["file"]] = g["harness_file"]
+        for h in g["harnesses"]:
+            harnesses.append((g, h))
+    key = tuple(sorted(h["name"] for _, h in harnesses))
+    todo = [(g, h) for g, h in harnesses if h["name"] not in cache]
+    if todo:
+        t0 = time.time()
+        d = None
+        try:
+            d = make_scratch(files)
+            ws = os.path.join(d, "ws")
+            os.makedirs(CACHE, exist_ok=True)
+            tmax = max(h.get("timeout_s", 600) for _, h in todo)
+            cmd = ["cargo", "kani", "-p", "nexosim", "-Z", "function-contracts", "-Z", "stubbing", "-Z", "unstable-options",
+                   "--target-dir", CACHE, "-j", str(min(8, len(todo))), "--harness-timeout", "%ds" % tmax,
+                   "--output-format", "terse"]
+            for _, h in todo:
+                cmd += ["--harness", h["name"]]
+            cmd.append("--exact") if False else None
+            cmd = [c for c in cmd if c]
+            env = dict(os.environ, CARGO_NET_OFFLINE="true")
+            log("[%s] kani: %d harness(es) …" % (prop, len(todo)))
+            try:
+                p = subprocess.run(cmd, cwd=ws, env=env, capture_output=True, text=True, timeout=tmax * 2 + 900)
+                out = p.stdout + "\n" + p.stderr
+            except subprocess.TimeoutExpired as e:
+                out = ((e.stdout or b"").decode(errors="replace") if isinstance(e.stdout, bytes) else (e.stdout or "")) + "\nGLOBAL TIMEOUT"
+            out = "\n".join(ln for ln in out.split("\n") if not re.match(r"^(aborting path|Unwinding|Not unwinding)", ln))
+            parsed = parse_output(out, [h["name"] for _, h in todo])
+            cmdline = "(cd <scratch copy of /repo + appended harnesses> && " + " ".join(cmd) + ")"
+            n_replayed = 0
+            for g, h in todo:
+                r = parsed.get(h["name"])
+                if r is None:
+                    r = {"status": "MISSING", "checks": 0, "failed": 0, "descs": [], "seconds": 0.0,
+                         "text": out[-5000:], "full": h["name"]}
+                r["cmd"] = cmdline
+                r["wall_s"] = time.time() - t0
+                if r["status"] == "FAILED" and n_replayed < 2 and not any("unwinding assertion" in x["desc"] for x in r["descs"]):
+                    n_replayed += 1
+                    try:
+                        r["replay"] = concrete_replay(ws, g, h, env, log, prop)
+                    except Exception as e:      # replay is best effort
+                        r["replay"] = {"ok": False, "text": "replay failed: %r" % (e,)}
+                cache[h["name"]] = r
+        finally:
+            if d:
+                shutil.rmtree(d, ignore_errors=True)
+    results = []
+    for g, h in harnesses:
+        r = cache[h["name"]]
+        kr = {"harness": h["name"], "kind": h["kind"], "bound": h.get("bound", ""), "checks": r["checks"],
+              "failed_checks": r["failed"], "seconds": r["seconds"], "status": r["status"], "cmd": r.get("cmd", ""),
+              "assumptions": g.get("assumptions", []) + h.get("assumptions", []), "failures": [], "undecided": [],
+              "counts_as_proof": h["kind"] in ("complete", "inductive"), "what": h.get("what", "")}
+        hp = set(h.get("props", g["props"]))
+        if r["status"] == "SUCCESSFUL":
+            pass
+        elif r["status"] == "FAILED":
+            descs = r["descs"] or [{"desc": "verification failed", "file": None, "line": None, "fn": None}]
+            real = [x for x in descs if "unwinding assertion" not in x["desc"]]
+            for x in descs:
+                if "unwinding assertion" in x["desc"]:
+                    # an unwinding assertion failure means the bound is too small: undecided, not a violation
+                    kr["undecided"].append("unwinding bound too small: " + x["desc"])
+            if real:
+                text = "; ".join(sorted({"%s (%s:%s)" % (x["desc"], x["file"], x["line"]) for x in real}))
+                f = KFailure(h["name"], text, hp, r["text"][-3500:], "failed-checks")
+                f._desc = h["name"]
+                rp = r.get("replay")
+                if rp and rp.get("ok"):
+                    f.input = rp["text"]
+                elif rp:
+                    f.rendered += "\n\n[replay attempt]\n" + rp.get("text", "")
+                kr["failures"].append(f)
+        else:
+            kr["undecided"].append("%s (%s)" % (r["status"], r["text"][-300:].replace("\n", " | ")))
+        log("[%s]   kani %s: %s, %d checks, %d failed, %.1fs (%s)" % (prop, h["name"], r["status"], r["checks"], r["failed"], r["seconds"], h["kind"]))
+        results.append(kr)
+    return results
